@@ -77,6 +77,12 @@ func c10Slot(st ref.Stamp, sect int) int64 {
 
 func c10Pillars(st ref.Stamp, sect int) [4]string {
 	ec := solarOf(st).GetLunar().GetEightChar()
+	if st.H == 23 || st.H == 0 {
+		// around midnight the chart is first read the other way (a caller comparing the two conventions on one chart
+		// object), then switched: the pillars fed back are the ones reported after the switch
+		ec.SetSect(3 - sect)
+		_ = ec.String() + ec.GetDay() + ec.GetTime() + ec.GetDayGan() + ec.GetDayZhi()
+	}
 	ec.SetSect(sect)
 	return [4]string{ec.GetYear(), ec.GetMonth(), ec.GetDay(), ec.GetTime()}
 }
